@@ -2,6 +2,8 @@ package checks
 
 import (
 	"fmt"
+	"regexp"
+	"strconv"
 	"strings"
 	"time"
 
@@ -63,6 +65,8 @@ func c11Ext(on bool) (h.Config, ref.Ext) {
 	}
 	return h.Config{}, ref.Ext{}
 }
+
+var c11SizeRe = regexp.MustCompile(`(?i) SIZE=([0-9]+)( |$)`)
 
 func evalC11(c C11Case) (*h.Finding, ref.Class) {
 	cfg, ext := c11Ext(c.Ext)
@@ -145,6 +149,17 @@ func evalC11(c C11Case) (*h.Finding, ref.Class) {
 	}
 	if c.BadVerb {
 		class, why = ref.Invalid, "the line does not begin with "+map[string]string{"MAIL": "MAIL FROM:", "RCPT": "RCPT TO:"}[c.Cmd]
+	}
+	if c.Cmd == "MAIL" && len(calls) == 1 {
+		if m := c11SizeRe.FindStringSubmatch(c.Arg); m != nil && strings.Count(strings.ToUpper(c.Arg), "SIZE=") == 1 {
+			num := m[1]
+			if n, err := strconv.ParseUint(num, 10, 64); err == nil {
+				want := fmt.Sprintf("Size=%d ", n)
+				if strings.Contains(calls[0].Opts, "Size=-") || !strings.Contains(calls[0].Opts, want) {
+					return h.F("c11-options-differ", "%s: the line declares SIZE=%s (decimal %d) and was accepted, but the backend received options {%s}", desc, num, n, calls[0].Opts), class
+				}
+			}
+		}
 	}
 	switch class {
 	case ref.Valid:
@@ -302,6 +317,17 @@ func C11(tier string) int {
 			`ORCPT=utf-8;a\x{FFFFFFFFFFFFFFFFF}@c.example`, `ORCPT=utf-8;a\x{10FFFF}@c.example`, `ORCPT=utf-8;a\x{E9}@c.example`, `ORCPT=utf-8;a\x{7F}@c.example`, `ORCPT=utf-8;a\x{}@c.example`, `ORCPT=utf-8;a\x{G1}@c.example`} {
 			add("RCPT", pth+" "+x)
 		}
+	}
+	// non-ASCII mailboxes whose UTF-8 encoding contains the octets 0x85 and 0xA0 (NEL and NBSP in Latin-1) and other
+	// continuation octets; declared sizes at the integer boundaries
+	for _, pth := range []string{"<info@università.example>", "<jan@książka.example>", "<x@慠.example>", "<àą@d.example>", "<Å@Åland.example>", "<naïve@café.example>"} {
+		add("MAIL", pth+" SMTPUTF8")
+		add("MAIL", pth+" SMTPUTF8 SIZE=5")
+		add("RCPT", pth)
+		add("RCPT", pth+" NOTIFY=SUCCESS")
+	}
+	for _, z := range []string{"SIZE=2147483647", "SIZE=2147483648", "SIZE=4294967295", "SIZE=4294967296", "SIZE=9223372036854775807", "SIZE=9223372036854775808", "SIZE=18446744073709551615", "SIZE=18446744073709551616", "SIZE=00012", "SIZE=012"} {
+		add("MAIL", "<l@d.example> "+z)
 	}
 	// the command words in other spellings (RFC 5321 2.4: command verbs and keywords are case-insensitive)
 	ng := len(cases)
